@@ -41,6 +41,9 @@ func mSourceLevelPlus(k int64, constOnly bool) VMatch {
 }
 
 func runC06(p *Prog, r *Report) {
+	if want("C06.20") {
+		ruleRecordBytesFresh(p, r, "C06.20")
+	}
 	if want("C06.1") {
 		ruleComparerDiscipline(p, r, "C06.1", cmpPkgs, nil)
 	}
